@@ -719,4 +719,109 @@ theorem grid_overflow_beyond_domain :
       .error (.indexOutOfRange "refineX: xLimits_[levelX_]") := by
   decide +kernel
 
+open ColoVerif.Grid in
+/-- **binCapacity(BinGroup): no fault.**  (`DensityGrid::binCapacity(BinGroup)`, what
+`HierarchicalDensityPlacement::binCapacity(x, y)` evaluates through `getGroup`.)  On a grid of consistent shape
+with non-negative capacities whose total fits a `long long`, every group of bins inside the grid is summed with
+all indices in range and without overflow (a group holds at most the total: `groupCapacity_le_total`). -/
+theorem grid_group_capacity_no_fault (g : DGrid) (hs : CapShape g)
+    (hnn : ∀ i j, i < g.nbX → j < g.nbY → 0 ≤ g.binCapacity i j) (ht : g.totalCapacity ≤ 9223372036854775807)
+    (x0 x1 y0 y1 : Nat) (hx : x0 ≤ x1) (hx1 : x1 ≤ g.nbX) (hy : y0 ≤ y1) (hy1 : y1 ≤ g.nbY) :
+    g.groupCapacityC x0 x1 y0 y1 = .ok (g.groupCapacity x0 x1 y0 y1) :=
+  groupCapacityC_ok g hs hnn ht x0 x1 y0 y1 hx hx1 hy hy1
+
+open ColoVerif.Grid in
+example : (DGrid.mk [0, 5, 10] [0, 4] [[16], [14]]).groupCapacityC 1 2 0 1 = .ok 14 := by decide
+
+open ColoVerif.Grid in
+/-- **The constructed grid satisfies the hypotheses of the capacity theorems.**  On the domain of
+`grid_capacity_no_fault` the grid `DensityGrid(binSize, regions)` builds has non-negative capacities and a total
+of at most `2^16 · 2^46 = 2^62` (the total is the sum of the region areas, C16), so `totalCapacity()` - and by
+`grid_group_capacity_no_fault` every `binCapacity(BinGroup)` - evaluates on it without fault, with no further
+hypothesis. -/
+theorem grid_total_capacity_of_constructed_grid (binSize : Int) (regions : List Rect) (hb : 1 ≤ binSize)
+    (hr : ∀ r ∈ regions, RectOk r) (hn : regions.length ≤ 65536) :
+    (DGrid.ofRegions binSize regions).totalCapacityC = .ok (DGrid.ofRegions binSize regions).totalCapacity ∧
+    CapShape (DGrid.ofRegions binSize regions) ∧
+    (∀ i j, i < (DGrid.ofRegions binSize regions).nbX → j < (DGrid.ofRegions binSize regions).nbY →
+      0 ≤ (DGrid.ofRegions binSize regions).binCapacity i j) ∧
+    0 ≤ (DGrid.ofRegions binSize regions).totalCapacity ∧
+    (DGrid.ofRegions binSize regions).totalCapacity ≤ 4611686018427387904 :=
+  ⟨ofRegions_totalCapacityC binSize regions hb hr hn, capacities_shape _ _ regions,
+   (ofRegions_capacity_bounds binSize regions hb hr hn).1, (ofRegions_capacity_bounds binSize regions hb hr hn).2.1,
+   (ofRegions_capacity_bounds binSize regions hb hr hn).2.2⟩
+
+open ColoVerif.Grid in
+/-- **check()'s usage accumulation: no fault, and the assertion holds.**  In every state satisfying C16's
+invariant `Grid.Inv`, with demands of the domain (`DemandOk`: at most 2^20 cells, demands in `[0, 2^31)`):
+every `binUsage(i, j)` of the view (that a bin holds at most 2^20 cells is derived from `AllocInv`: no cell
+twice, every cell an index), the 64-bit accumulation `usage += binUsage(i, j)` and `totalDemand()` evaluate
+without fault, `assert(usage == totalDemand())` holds, and the value is the sum of the demands. -/
+theorem grid_usage_sum_no_fault (asr : Bool) (s : HState) (nX nY : Nat) (h : Inv nX nY s) (hd : DemandOk s.demand) :
+    s.usageSumC asr = .ok s.demand.sum := usageSumC_ok asr s nX nY h hd
+
+open ColoVerif.Grid in
+example : DemandOk [2147483647, 0, 12] ∧
+    (HState.init ⟨[0, 5, 10], [0, 4], [[16], [14]]⟩ [2147483647, 0, 12]).refineX.usageSumC true = .ok 2147483659 := by
+  decide
+
+/-- one operation of a hierarchical-placement session through the checked twins; the redistribution
+skeletons (`rebisect`, `reoptimize`, transports, `setBinCells`) only move cell lists (C16) -/
+def gridApplyC (asr : Bool) (s : Grid.HState) : Grid.Op → Except Fault Grid.HState
+  | .refineX => s.refineXC asr
+  | .refineY => s.refineYC asr
+  | .coarsenX => s.coarsenXC asr
+  | .coarsenY => s.coarsenYC asr
+  | op => .ok (s.apply op)
+
+/-- a whole session through the checked twins: the first fault, or the final state -/
+def gridRunC (asr : Bool) : Grid.HState → List Grid.Op → Except Fault Grid.HState
+  | s, [] => .ok s
+  | s, op :: ops =>
+    match gridApplyC asr s op with
+    | .error f => .error f
+    | .ok t => gridRunC asr t ops
+
+/-- the contract of one call: refine above level 0, coarsen below the top level, `int`-sized level counts -/
+def GridStepOk (s : Grid.HState) : Grid.Op → Prop
+  | .refineX => 1 ≤ s.levelX ∧ s.hx.nbLevels ≤ 2147483647
+  | .refineY => 1 ≤ s.levelY ∧ s.hy.nbLevels ≤ 2147483647
+  | .coarsenX => s.levelX + 1 < s.hx.nbLevels ∧ s.hx.nbLevels ≤ 2147483647
+  | .coarsenY => s.levelY + 1 < s.hy.nbLevels ∧ s.hy.nbLevels ≤ 2147483647
+  | _ => True
+
+/-- every call of the session is made within its contract -/
+def GridOpsOk : Grid.HState → List Grid.Op → Prop
+  | _, [] => True
+  | s, op :: ops => GridStepOk s op ∧ GridOpsOk (s.apply op) ops
+
+open ColoVerif.Grid in
+/-- **Whole sessions.**  From any state satisfying C16's invariant (in particular the constructor's state,
+`inv_init`), every sequence of refine / coarsen calls made within their contracts, interleaved with arbitrary
+redistribution steps, runs through the checked twins without a fault and ends in the unbounded model's state
+(`HState.run`, the object of C16's `alloc_inv`). -/
+theorem grid_session_no_fault (asr : Bool) (nX nY : Nat) (ops : List Grid.Op) :
+    ∀ s : HState, Inv nX nY s → GridOpsOk s ops → gridRunC asr s ops = .ok (s.run ops) := by
+  induction ops with
+  | nil => intro s _ _; rfl
+  | cons op ops ih =>
+    intro s h hok
+    obtain ⟨hstep, hrest⟩ := hok
+    have hnext := ih (s.apply op) (inv_apply s h op) hrest
+    have hstepC : gridApplyC asr s op = .ok (s.apply op) := by
+      cases op with
+      | refineX => exact refineXC_ok asr s nX nY h hstep.1 hstep.2
+      | refineY => exact refineYC_ok asr s nX nY h hstep.1 hstep.2
+      | coarsenX => exact coarsenXC_ok asr s nX nY h hstep.1 hstep.2
+      | coarsenY => exact coarsenYC_ok asr s nX nY h hstep.1 hstep.2
+      | _ => rfl
+    simp only [gridRunC, hstepC, hnext, HState.run, List.foldl_cons]
+
+open ColoVerif.Grid in
+/-- non-vacuity: refine then coarsen again on the constructor's state of a 2 × 1 grid -/
+example : GridOpsOk (HState.init ⟨[0, 5, 10], [0, 4], [[16], [14]]⟩ [3, 0, 12]) [.refineX, .coarsenX] ∧
+    (gridRunC true (HState.init ⟨[0, 5, 10], [0, 4], [[16], [14]]⟩ [3, 0, 12]) [.refineX, .coarsenX]).toOption.map (·.bins) =
+      some [[[0, 2]]] := by
+  refine ⟨⟨⟨?_, ?_⟩, ⟨?_, ?_⟩, trivial⟩, ?_⟩ <;> decide
+
 end ColoVerif.C07
